@@ -107,7 +107,9 @@ func (u *DefaultUnifier) processModel(modelInfo *domain.ModelInfo, endpoint *dom
 	// Digest matching is most reliable - same binary content
 	if model.Digest != "" {
 		if existingModels, found := u.store.ResolveByDigest(model.Digest); found && len(existingModels) > 0 {
-			existing := existingModels[0]
+			// models handed out by the store are shared with concurrent readers and must not be
+			// modified in place
+			existing := u.store.deepCopyForModification(existingModels[0])
 			u.mergeModel(existing, model, endpoint)
 			u.stats.DigestMatches++
 			updated, _ := u.store.GetModel(existing.ID)
@@ -118,6 +120,7 @@ func (u *DefaultUnifier) processModel(modelInfo *domain.ModelInfo, endpoint *dom
 	// Fall back to name matching if no digest
 	if existing, found := u.store.ResolveByName(model.Name); found {
 		if u.canMergeByName(existing, model) {
+			existing = u.store.deepCopyForModification(existing)
 			u.mergeModel(existing, model, endpoint)
 			u.stats.NameMatches++
 			updated, _ := u.store.GetModel(existing.ID)
@@ -333,7 +336,8 @@ func (u *DefaultUnifier) removeModelFromEndpoint(modelID, endpointURL string) {
 		return
 	}
 
-	// GetModel returns a deep copy
+	// GetModel returns the shared, read-only instance: copy before modifying it
+	model = u.store.deepCopyForModification(model)
 	newSources := make([]domain.SourceEndpoint, 0, len(model.SourceEndpoints))
 	for _, source := range model.SourceEndpoints {
 		if source.EndpointURL != endpointURL {
